@@ -140,6 +140,10 @@ def hyper_case(rng, cid):
         kw["output_transform"] = lambda i, o, p: o + p.eq_params["a"] * i[0]
     # the designated parameters feed the hyper-network in the DECLARED order, whatever the order of the parameter dictionary
     hyper_order = rng.choice([["a", "b"], ["b", "a"]])
+    matrices = rng.random() < 0.35        # designated parameters that are 2x2 matrices: each one is flattened on its own, then they are joined
+    if matrices:
+        hyper_order = rng.choice([["m1", "m2"], ["m2", "m1"]])
+        eqx_list_hyper = ((eqx.nn.Linear, 8, 3), (square,), (eqx.nn.Linear, 3, 1))
     osl = None
     if nout == 2 and rng.random() < 0.6:             # two networks sharing the outputs of one hyper-network-driven network
         def one():
@@ -152,12 +156,16 @@ def hyper_case(rng, cid):
         which = rng.randrange(2)
         osl = specs[which][0]
         kw["shared_pinn_outputs"] = (specs[0][1], specs[1][1])
-    u = jinns.utils.create_HYPERPINN(jax.random.PRNGKey(rng.randrange(1 << 30)), eqx_list, eq_type, hyperparams=hyper_order, hypernet_input_size=2,
+    u = jinns.utils.create_HYPERPINN(jax.random.PRNGKey(rng.randrange(1 << 30)), eqx_list, eq_type, hyperparams=hyper_order, hypernet_input_size=8 if matrices else 2,
                                      dim_x=dim_x, eqx_list_hyper=eqx_list_hyper, **kw)
     if isinstance(u, list):
         u = u[which]
     eqp = [dy(rng, 1, 3), dy(rng)]
     eqd = {"a": jnp.array(eqp[0]), "b": jnp.array(eqp[1])}
+    mats = {}
+    if matrices:
+        mats = {k: [[dy(rng), dy(rng)], [dy(rng), dy(rng)]] for k in ("m1", "m2")}
+        eqd.update({k: jnp.array(v) for k, v in mats.items()})
     if rng.random() < 0.5:
         eqd = dict(reversed(list(eqd.items())))
     P = Params(nn_params=u.init_params(), eq_params=eqd)
@@ -165,6 +173,8 @@ def hyper_case(rng, cid):
     use_jit = rng.random() < 0.5          # under jit the dictionary is rebuilt in sorted key order
     out = (jax.jit(lambda i, p: u(i, p)) if use_jit else u)(jnp.array(inputs), P)
     hyper_in = [eqp[0], eqp[1]] if hyper_order == ["a", "b"] else [eqp[1], eqp[0]]
+    if matrices:
+        hyper_in = [x for k in hyper_order for row in mats[k] for x in row]
     hl = export_layers(u.init_params().layers, u.static_hyper.layers)
     shapes = [(h, nin), (nout, h)]
     acts = [with_act, False]
@@ -175,7 +185,7 @@ def hyper_case(rng, cid):
     want_shape = ((osl[1] - osl[0]) if osl else nout,)
     if tuple(out.shape) != want_shape:
         fails.append(f"the hyper-network wrapper returned shape {tuple(out.shape)}, its output slice has {want_shape[0]} component(s)")
-    return term, dict(what="hyper", eq_type=eq_type, nout=nout, with_act=with_act, use_tin=use_tin, use_tout=use_tout, hyperparams=hyper_order, jit=use_jit, oslice=osl), fails
+    return term, dict(what="hyper", eq_type=eq_type, nout=nout, with_act=with_act, use_tin=use_tin, use_tout=use_tout, hyperparams=hyper_order, jit=use_jit, oslice=osl, matrices=matrices), fails
 
 
 def generate(tier, seed, casedir, variant):
@@ -202,7 +212,7 @@ def generate(tier, seed, casedir, variant):
             cid += 1
     write_cases(casedir, "C10", "R_C10", variant, cases, chunk=60)
     return dict(meta=meta, oracle_violations=viol, evaluations=len(cases), distinct_nontrivial=len(cases), samples=samples, distribution=dist,
-                rule="random architectures: create_PINN (ODE / stationary / non-stationary, input / output transforms reading an equation parameter, shared outputs given as slices or integer indices (0 and negative ones included; either of the two networks is evaluated), bare network parameters, scalar or (1,) time), create_SPINN (d = 1..3, embedding size 1..3, 1..2 outputs, 1..3 batch points, four grid indices each), create_HYPERPINN (two designated parameters, shared outputs, inner network with or without activation, input / output transforms reading the inputs and an equation parameter); weights exported as exact rationals; every case is non-trivial and distinct (fresh random weights)",
+                rule="random architectures: create_PINN (ODE / stationary / non-stationary, input / output transforms reading an equation parameter, shared outputs given as slices or integer indices (0 and negative ones included; either of the two networks is evaluated), bare network parameters, scalar or (1,) time), create_SPINN (d = 1..3, embedding size 1..3, 1..2 outputs, 1..3 batch points, four grid indices each), create_HYPERPINN (two designated parameters, scalars or 2x2 matrices, shared outputs, inner network with or without activation, input / output transforms reading the inputs and an equation parameter); weights exported as exact rationals; every case is non-trivial and distinct (fresh random weights)",
                 oracle_checks=len(cases))
 
 
